@@ -30,7 +30,12 @@ func (c *c04CountingReader) Read(p []byte) (int, error) {
 	return c.r.Read(p)
 }
 
-func c04Run(f []string) string {
+func c04Run(f []string) (res string) {
+	defer func() {
+		if e := recover(); e != nil {
+			res = "panic" // the model predicts panics (NewBuffered with maxBufLen <= 1): compare the word only
+		}
+	}()
 	switch f[0] {
 	case "imm", "buf":
 		size, _ := strconv.Atoi(f[1])
@@ -152,7 +157,7 @@ func c04Run(f []string) string {
 func c04Gen(r *Rand, tier string) []string {
 	n := 1500
 	if tier == "thorough" {
-		n = 60000
+		n = 120000
 	}
 	var out []string
 	alpha := []byte{'a', '\n', '\r', 'b', '\n'}
@@ -241,7 +246,7 @@ func c04GenMore(r *Rand, tier string) []string {
 	var out []string
 	n := 400
 	if tier == "thorough" {
-		n = 12000
+		n = 40000
 	}
 	alpha := []byte{'a', '\n', '\r', 'b', '\n', '\r'}
 	rndData := func(ln int) []byte {
@@ -284,6 +289,8 @@ func c04GenMore(r *Rand, tier string) []string {
 		}
 		return strings.Join(steps, ",")
 	}
+	// NewBuffered refuses maxBufLen <= 1 (panic); NewImmediate accepts 1
+	out = append(out, "buf 1 610a .", "buf 0 610a 1:n", "rl buf 1 610a .", "imm 1 610a62 .")
 	for i := 0; i < n; i++ {
 		switch r.Intn(8) {
 		case 0: // dropCR
